@@ -136,6 +136,10 @@ Definition resolve (w : world) (a : arg) : rarg :=
   | AJunk => RJunk
   end.
 
+(* inlet= / outlet= arguments of unit.insert as written in a history *)
+Inductive port := PNone | PIndex (i : Z) | PArg (a : arg).
+(* elements of the inlets= / outlets= lists of unit.disconnect as written in a history *)
+Inductive ditem := DIdx (i : Z) | DArg (a : arg).
 (* StreamSequence._as_stream *)
 Definition as_stream (w : world) (sd : side) (u : nat) (a : rarg) : world * res obj :=
   match a with
@@ -184,6 +188,47 @@ Definition set_streams (w : world) (sd : side) (u : nat) (lo hi : option Z) (xs 
       let (a, b) := slice_bounds lo hi (length l) in
       let w2 := fold_left (fun w x => undock w sd x) (firstn (b - a) (skipn a l)) w1 in
       let l' := firstn a l ++ ys ++ skipn b l in
+      let w3 := upd_ports w2 sd u l' in
+      let w4 := fold_left (fun w x => redock w sd u x) l' w3 in
+      if pfixed w4 sd u && (length l' <? psize w4 sd u)
+      then let (w5, ms) := new_missings w4 sd u (psize w4 sd u - length l') in
+           ok (upd_ports w5 sd u (ports w5 sd u ++ ms))
+      else ok w4
+  end.
+
+(* _set_streams with an extended slice L[lo:hi:st] = xs (st other than 1; python treats st = 1 as a plain slice).
+   Positions are the range given by slice(lo, hi, st).indices(len); the streams at those positions are undocked, then
+   list.__setitem__ demands as many new streams as positions (ValueError otherwise, after the undocking),
+   then every stream of the list is redocked. *)
+Fixpoint zrange (fuel : nat) (cur stop st : Z) : list nat :=
+  match fuel with
+  | O => []
+  | S f => if (if (0 <? st)%Z then (cur <? stop)%Z else (stop <? cur)%Z)
+           then Z.to_nat cur :: zrange f (cur + st)%Z stop st else []
+  end.
+Definition ext_indices (lo hi : option Z) (st : Z) (n : nat) : list nat :=
+  let nz := Z.of_nat n in
+  if (0 <? st)%Z then zrange n (Z.of_nat (clampZ lo n 0)) (Z.of_nat (clampZ hi n n)) st
+  else
+    let cl (i : option Z) (dflt : Z) : Z :=
+      match i with
+      | None => dflt
+      | Some i => if (i <? 0)%Z then Z.max (-1) (i + nz) else Z.min i (nz - 1)
+      end in
+    zrange n (cl lo (nz - 1)%Z) (cl hi (-1)%Z) st.
+Definition assign (l : list obj) (idxs : list nat) (ys : list obj) : list obj :=
+  fold_left (fun l p => upd l (fst p) (snd p)) (combine idxs ys) l.
+Definition set_streams_step (w : world) (sd : side) (u : nat) (lo hi : option Z) (st : Z) (xs : list rarg) : outcome :=
+  if (st =? 1)%Z then set_streams w sd u lo hi xs else
+  match as_streams w sd u xs with
+  | (w1, Err e) => fail w1 e
+  | (w1, Ok ys) =>
+      if (st =? 0)%Z then fail w1 EValue else        (* slice step cannot be zero *)
+      let l := ports w1 sd u in
+      let idxs := ext_indices lo hi st (length l) in
+      let w2 := fold_left (fun w x => undock w sd x) (map (fun i => nth i l (M_ 0)) idxs) w1 in
+      if negb (length ys =? length idxs) then fail w2 EValue else
+      let l' := assign l idxs ys in
       let w3 := upd_ports w2 sd u l' in
       let w4 := fold_left (fun w x => redock w sd u x) l' w3 in
       if pfixed w4 sd u && (length l' <? psize w4 sd u)
@@ -269,59 +314,149 @@ Definition disconnect_side (w : world) (sd : side) (a : rarg) : outcome :=
 (* ---------- unit-level operations ---------- *)
 Definition robjs (l : list obj) : list rarg := map RObj l.
 
-(* AbstractUnit.disconnect(join_ends=join), inlets=outlets=None *)
-Fixpoint join_ends (w : world) (ios : list (obj * obj)) : outcome :=
+(* AbstractUnit.disconnect(inlets=..., outlets=..., join_ends=join).
+   An element of the inlets / outlets lists: an int, a stream object, or something else (None) *)
+Inductive rditem := RDIdx (i : Z) | RDObj (x : obj) | RDBad.
+(* for i in inlets: ins[ins.index(i) if isinstance(i, AbstractStream) else i] = None
+   for o in outlets: outs[ins.index(o) if isinstance(o, AbstractStream) else o] = None   (ins.index in both, as written) *)
+Fixpoint disc_items (w : world) (sd : side) (u : nat) (its : list rditem) : outcome :=
+  match its with
+  | [] => ok w
+  | it :: t =>
+      andthen (match it with
+               | RDObj x => if is_real x
+                            then match index_of x (ports w SIn u) with
+                                 | Some k => set_stream w sd u (Z.of_nat k) RNone
+                                 | None => fail w EValue
+                                 end
+                            else fail w EIndex          (* a placeholder / None as index: IndexError *)
+               | RDIdx i => set_stream w sd u i RNone
+               | RDBad => fail w EIndex
+               end) (fun w1 => disc_items w1 sd u t)
+  end.
+Definition disc_side (w : world) (sd : side) (u : nat) (o : option (list rditem)) : outcome :=
+  match o with
+  | None => set_streams w sd u None None []       (* ins[:] = () *)
+  | Some its => disc_items w sd u its
+  end.
+(* for inlet, outlet in zip(inlets, outlets): if outlet.sink: outlet.sink.ins.replace(outlet, inlet);
+   an int has no .sink (AttributeError); an int as inlet is rejected by _as_stream (TypeError) *)
+Fixpoint join_ends (w : world) (ios : list (rarg * option obj)) : outcome :=
   match ios with
   | [] => ok w
-  | (inlet, outlet) :: t =>
+  | (inlet, None) :: _ => fail w EOther
+  | (inlet, Some outlet) :: t =>
       match ptr w SIn outlet with
-      | Some v => andthen (replace w SIn v (RObj outlet) (RObj inlet)) (fun w1 => join_ends w1 t)
+      | Some v => andthen (replace w SIn v (RObj outlet) inlet) (fun w1 => join_ends w1 t)
       | None => join_ends w t
       end
   end.
-Definition unit_disconnect (w : world) (u : nat) (join : bool) : outcome :=
-  let inlets := filter is_real (ports w SIn u) in
-  andthen (set_streams w SIn u None None []) (fun w1 =>
-  let outlets := filter is_real (ports w1 SOut u) in
-  andthen (set_streams w1 SOut u None None []) (fun w2 =>
+Definition as_inlet (it : rditem) : rarg := match it with RDObj x => RObj x | RDIdx _ => RJunk | RDBad => RNone end.
+Definition as_outlet (it : rditem) : option obj := match it with RDObj x => Some x | _ => None end.
+Definition join_list (w w1 : world) (u : nat) (pi po : option (list rditem)) : list (rarg * option obj) :=
+  combine (match pi with None => map RObj (filter is_real (ports w SIn u)) | Some its => map as_inlet its end)
+          (match po with None => map Some (filter is_real (ports w1 SOut u)) | Some its => map as_outlet its end).
+Definition join_len_ok (w w1 : world) (u : nat) (pi po : option (list rditem)) : bool :=
+  length (match pi with None => map RObj (filter is_real (ports w SIn u)) | Some its => map as_inlet its end)
+  =? length (match po with None => map Some (filter is_real (ports w1 SOut u)) | Some its => map as_outlet its end).
+Definition unit_disconnect (w : world) (u : nat) (join : bool) (pi po : option (list rditem)) : outcome :=
+  andthen (disc_side w SIn u pi) (fun w1 =>
+  andthen (disc_side w1 SOut u po) (fun w2 =>
   if join then
-    if negb (length inlets =? length outlets) then fail w2 EValue
-    else join_ends w2 (combine inlets outlets)
+    if negb (join_len_ok w w1 u pi po) then fail w2 EValue
+    else join_ends w2 (join_list w w1 u pi po)
   else ok w2)).
 
 (* AbstractUnit.insert(stream) with inlet=None, outlet=None *)
 Definition hd_arg (l : list obj) : option obj := match l with [] => None | x :: _ => Some x end.
-Definition unit_insert (w : world) (u : nat) (a : rarg) : outcome :=
+(* the inlet= / outlet= arguments: None, an int, or a stream object *)
+Inductive rport := RPNone | RPIndex (i : Z) | RPObj (x : obj).
+(* [outlet = self.outs[outlet]] and, as written in the source, also [inlet = self.outs[inlet]] for an int;
+   for an AbstractStream the test [outlet.source is not self] / [inlet.sink is not self] (side [chk]);
+   a placeholder object is not an AbstractStream and is used as a list index: TypeError *)
+Definition explicit_port (w : world) (u : nat) (chk : side) (p : rport) : res obj :=
+  match p with
+  | RPObj y => if is_real y
+               then match ptr w chk y with
+                    | Some v => if v =? u then Ok y else Err EValue
+                    | None => Err EValue
+                    end
+               else Err EType
+  | RPIndex i => match norm_index i (length (ports w SOut u)) with
+                 | Some k => Ok (nth k (ports w SOut u) (M_ 0))
+                 | None => Err EIndex
+                 end
+  | RPNone => Err EOther
+  end.
+(* first block of insert(): the downstream side *)
+Definition insert_out (w : world) (u : nat) (s : obj) (ro : rport) : outcome :=
+  let sink := ptr w SIn s in
+  match ro with
+  | RPNone =>
+      if pfixed w SOut u then
+        if psize w SOut u =? 1 then
+          match sink with
+          | None => fail w EOther                              (* None.ins *)
+          | Some v => match hd_arg (ports w SOut u) with
+                      | Some y => replace w SIn v (RObj s) (RObj y)
+                      | None => fail w EIndex
+                      end
+          end
+        else fail w EValue
+      else insert_stream w SOut u None (RObj s)
+  | _ => match explicit_port w u SOut ro with
+         | Err e => fail w e
+         | Ok y => match sink with
+                   | None => fail w EOther
+                   | Some v => replace w SIn v (RObj s) (RObj y)
+                   end
+         end
+  end.
+(* second block: the upstream side; [source] was read before the first block ran *)
+Definition insert_in (w1 : world) (u : nat) (s : obj) (source : option nat) (added : bool) (ri : rport) : outcome :=
+  match ri with
+  | RPNone =>
+      if pfixed w1 SIn u || added then
+        if psize w1 SIn u =? 1 then
+          match source with
+          | None => fail w1 EOther
+          | Some t => match hd_arg (ports w1 SIn u) with
+                      | Some z => replace w1 SOut t (RObj s) (RObj z)
+                      | None => fail w1 EIndex
+                      end
+          end
+        else fail w1 EValue
+      else insert_stream w1 SIn u None (RObj s)
+  | _ => match explicit_port w1 u SIn ri with
+         | Err e => fail w1 e
+         | Ok z => match source with
+                   | None => fail w1 EOther
+                   | Some t => replace w1 SOut t (RObj s) (RObj z)
+                   end
+         end
+  end.
+(* AbstractUnit.insert(stream, inlet, outlet) *)
+Definition unit_insert (w : world) (u : nat) (a : rarg) (ri ro : rport) : outcome :=
   match a with
   | RObj s =>
       let source := ptr w SOut s in
-      let sink := ptr w SIn s in
-      let r1 :=
-        if pfixed w SOut u then
-          if psize w SOut u =? 1 then
-            match sink with
-            | None => fail w EOther                              (* None.ins *)
-            | Some v => match hd_arg (ports w SOut u) with
-                        | Some y => replace w SIn v (RObj s) (RObj y)
-                        | None => fail w EIndex
-                        end
-            end
-          else fail w EValue
-        else insert_stream w SOut u None (RObj s) in
-      let added := negb (pfixed w SOut u) in
-      andthen r1 (fun w1 =>
-        if pfixed w1 SIn u || added then
-          if psize w1 SIn u =? 1 then
-            match source with
-            | None => fail w1 EOther
-            | Some t => match hd_arg (ports w1 SIn u) with
-                        | Some z => replace w1 SOut t (RObj s) (RObj z)
-                        | None => fail w1 EIndex
-                        end
-            end
-          else fail w1 EValue
-        else insert_stream w1 SIn u None (RObj s))
+      let added := match ro with RPNone => negb (pfixed w SOut u) | _ => false end in
+      andthen (insert_out w u s ro) (fun w1 => insert_in w1 u s source added ri)
   | _ => fail w EOther                                           (* None.source *)
+  end.
+
+Definition resolve_item (w : world) (d : ditem) : rditem :=
+  match d with
+  | DIdx i => RDIdx i
+  | DArg a => match resolve w a with RObj x => RDObj x | RNone => RDBad | RJunk => RDIdx 7%Z end
+  end.
+Definition resolve_items (w : world) (o : option (list ditem)) : option (list rditem) :=
+  option_map (map (resolve_item w)) o.
+Definition resolve_port (w : world) (p : port) : rport :=
+  match p with
+  | PNone => RPNone
+  | PIndex i => RPIndex i
+  | PArg a => match resolve w a with RObj x => RPObj x | RNone => RPNone | RJunk => RPIndex 7%Z end
   end.
 
 (* take_place_of / replace_with(other) *)
@@ -439,6 +574,7 @@ Definition new_unit (w : world) (nin nout : nat) (fin fout : bool) (fi fo : form
 Inductive op :=
 | OSet (sd : side) (u : nat) (i : Z) (a : arg)                 (* L[i] = a;  s-i-u;  u-(i-s);  u**i**s *)
 | OSetSlice (sd : side) (u : nat) (lo hi : option Z) (xs : list arg)   (* L[lo:hi] = xs;  xs-u;  u-xs *)
+| OSetSliceStep (sd : side) (u : nat) (lo hi : option Z) (st : Z) (xs : list arg)   (* L[lo:hi:st] = xs *)
 | OInsert (sd : side) (u : nat) (i : Z) (a : arg)
 | OAppend (sd : side) (u : nat) (a : arg)
 | OExtend (sd : side) (u : nat) (xs : list arg)
@@ -450,8 +586,8 @@ Inductive op :=
 | ODisc (sd : side) (a : arg)                                  (* a.disconnect_sink() / a.disconnect_source() *)
 | ODiscBoth (a : arg)                                          (* a.disconnect() *)
 | OPipeUU (u1 u2 : nat)                                        (* u1 - u2 *)
-| OUnitDisconnect (u : nat) (join : bool)
-| OUnitInsert (u : nat) (a : arg)
+| OUnitDisconnect (u : nat) (join : bool) (pi po : option (list ditem))   (* u.disconnect(inlets=pi, outlets=po, join_ends=join) *)
+| OUnitInsert (u : nat) (a : arg) (pin pout : port)               (* u.insert(a, inlet=inl, outlet=outl) *)
 | OTakePlaceOf (u v : nat)
 | OReplaceWith (u : nat) (v : option nat)
 | OReconnect (src : option nat) (si : Z) (a : arg) (ki : Z) (snk : option nat)
@@ -461,6 +597,7 @@ Definition step_with (undock_on_pop : bool) (w : world) (o : op) : outcome :=
   match o with
   | OSet sd u i a => set_stream w sd u i (resolve w a)
   | OSetSlice sd u lo hi xs => set_streams w sd u lo hi (map (resolve w) xs)
+  | OSetSliceStep sd u lo hi st xs => set_streams_step w sd u lo hi st (map (resolve w) xs)
   | OInsert sd u i a => insert_stream w sd u (Some i) (resolve w a)
   | OAppend sd u a => insert_stream w sd u None (resolve w a)
   | OExtend sd u xs => extend w sd u (map (resolve w) xs)
@@ -473,8 +610,8 @@ Definition step_with (undock_on_pop : bool) (w : world) (o : op) : outcome :=
   | ODiscBoth a => let r := resolve w a in
                    andthen (disconnect_side w SOut r) (fun w1 => disconnect_side w1 SIn r)
   | OPipeUU u1 u2 => set_streams w SIn u2 None None (robjs (ports w SOut u1))
-  | OUnitDisconnect u join => unit_disconnect w u join
-  | OUnitInsert u a => unit_insert w u (resolve w a)
+  | OUnitDisconnect u join pi po => unit_disconnect w u join (resolve_items w pi) (resolve_items w po)
+  | OUnitInsert u a pin pout => unit_insert w u (resolve w a) (resolve_port w pin) (resolve_port w pout)
   | OTakePlaceOf u v => take_place_of w u v
   | OReplaceWith u v => replace_with w u v
   | OReconnect src si a ki snk => reconnect w src si (resolve w a) ki snk
@@ -523,6 +660,17 @@ Definition pre_slice (w : world) (sd : side) (u : nat) (lo hi : option Z) (xs : 
       nodupb (somes ys) && forallb (fun x => negb (mem x keep)) (somes ys)
       && (negb (pfixed w sd u) || (length keep + length ys <=? psize w sd u))
   end.
+(* L[lo:hi:st] = xs: as many streams as positions, distinct, none of them already in the list *)
+Definition pre_slice_step (w : world) (sd : side) (u : nat) (lo hi : option Z) (st : Z) (xs : list rarg) : bool :=
+  if (st =? 1)%Z then pre_slice w sd u lo hi xs else
+  match robj_list xs with
+  | None => true
+  | Some ys =>
+      if (st =? 0)%Z then true else
+      let l := ports w sd u in
+      (length ys =? length (ext_indices lo hi st (length l))) && nodupb (somes ys)
+      && forallb (fun x => negb (mem x l)) (somes ys)
+  end.
 (* insert / append: variable list (otherwise it raises), stream not docked on that side *)
 Definition pre_insert (w : world) (sd : side) (u : nat) (a : rarg) : bool :=
   pfixed w sd u ||
@@ -547,13 +695,14 @@ Definition pre_replace (w : world) (sd : side) (u : nat) (a b : rarg) : bool :=
 
 (* compound operations: every item/slice assignment they perform meets the precondition above
    at the moment it is performed *)
-Fixpoint pre_join (w : world) (ios : list (obj * obj)) : bool :=
+Fixpoint pre_join (w : world) (ios : list (rarg * option obj)) : bool :=
   match ios with
   | [] => true
-  | (inlet, outlet) :: t =>
+  | (inlet, None) :: _ => true
+  | (inlet, Some outlet) :: t =>
       match ptr w SIn outlet with
-      | Some v => pre_replace w SIn v (RObj outlet) (RObj inlet)
-                  && pre_join (fst (replace w SIn v (RObj outlet) (RObj inlet))) t
+      | Some v => pre_replace w SIn v (RObj outlet) inlet
+                  && pre_join (fst (replace w SIn v (RObj outlet) inlet)) t
       | None => pre_join w t
       end
   end.
@@ -584,46 +733,68 @@ Definition pre_form (fixed : bool) (size : nat) (f : form) : bool :=
   nodupb (item_reals (form_items f)) &&
   (negb fixed || match f with FOne _ => 1 <=? size | FList its => length its <=? size | _ => true end).
 
+(* unit.insert: the stream has a sink; the downstream block assigns the chosen outlet (default: the single
+   outlet of a fixed one-outlet unit) in the stream's place among the sink's inlets; the upstream block either
+   assigns the chosen inlet (default: the single inlet of a fixed one-inlet unit) in the stream's place among
+   the source's outlets, or appends the stream to a variable-size inlet list (the docstring's
+   M1.insert(P1-0)); each assignment / append meets its own precondition when it is performed *)
+Definition pre_insert_out (w : world) (u : nat) (s : obj) (ro : rport) : bool :=
+  match ptr w SIn s with
+  | None => false
+  | Some v =>
+      match ro with
+      | RPNone => pfixed w SOut u && (psize w SOut u =? 1) &&
+                  match hd_arg (ports w SOut u) with
+                  | Some y => pre_replace w SIn v (RObj s) (RObj y)
+                  | None => false
+                  end
+      | _ => match explicit_port w u SOut ro with
+             | Ok y => pre_replace w SIn v (RObj s) (RObj y)
+             | Err _ => false
+             end
+      end
+  end.
+Definition pre_insert_in (w w1 : world) (u : nat) (s : obj) (ri : rport) : bool :=
+  match ri with
+  | RPNone =>
+      if pfixed w1 SIn u then
+        (psize w1 SIn u =? 1) &&
+        match ptr w SOut s with
+        | Some t => match hd_arg (ports w1 SIn u) with
+                    | Some z => pre_replace w1 SOut t (RObj s) (RObj z)
+                    | None => true
+                    end
+        | None => false
+        end
+      else pre_insert w1 SIn u (RObj s)
+  | _ => match explicit_port w1 u SIn ri, ptr w SOut s with
+         | Ok z, Some t => pre_replace w1 SOut t (RObj s) (RObj z)
+         | _, _ => false
+         end
+  end.
+
 Definition preb (w : world) (o : op) : bool :=
   match o with
   | OSet sd u i a => pre_set w sd u i (resolve w a)
   | OSetSlice sd u lo hi xs => pre_slice w sd u lo hi (map (resolve w) xs)
+  | OSetSliceStep sd u lo hi st xs => pre_slice_step w sd u lo hi st (map (resolve w) xs)
   | OInsert sd u _ a | OAppend sd u a => pre_insert w sd u (resolve w a)
   | OExtend sd u xs => pre_extend w sd u (map (resolve w) xs)
   | OReplace sd u a b => pre_replace w sd u (resolve w a) (resolve w b)
   | OPop _ _ _ | ORemove _ _ _ | OEmpty _ _ | ODisc _ _ | ODiscBoth _ => true
   | OClear sd u => negb (pfixed w sd u)            (* clear() of a fixed-size list is outside the property *)
   | OPipeUU u1 u2 => pre_slice w SIn u2 None None (robjs (ports w SOut u1))
-  | OUnitDisconnect u join =>
+  | OUnitDisconnect u join pi po =>
       if join then
-        let inlets := filter is_real (ports w SIn u) in
-        let w1 := fst (set_streams w SIn u None None []) in
-        let outlets := filter is_real (ports w1 SOut u) in
-        let w2 := fst (set_streams w1 SOut u None None []) in
-        negb (length inlets =? length outlets) || pre_join w2 (combine inlets outlets)
+        let ri := resolve_items w pi in let ro := resolve_items w po in
+        let w1 := fst (disc_side w SIn u ri) in
+        let w2 := fst (disc_side w1 SOut u ro) in
+        negb (join_len_ok w w1 u ri ro) || pre_join w2 (join_list w w1 u ri ro)
       else true
-  | OUnitInsert u a =>
-      (* one fixed outlet; one fixed inlet or a variable number of inlets (the docstring example:
-         M1.insert(P1-0) appends the stream to the mixer's inlets); the stream has a sink, and a source
-         when the unit's single inlet is to be put in its place *)
+  | OUnitInsert u a pin pout =>
       match resolve w a with
-      | RObj s =>
-          pfixed w SOut u && (psize w SOut u =? 1) && (negb (pfixed w SIn u) || (psize w SIn u =? 1)) &&
-          match ptr w SIn s, hd_arg (ports w SOut u) with
-          | Some v, Some y =>
-              pre_replace w SIn v (RObj s) (RObj y) &&
-              (let w1 := fst (replace w SIn v (RObj s) (RObj y)) in
-               if pfixed w1 SIn u then
-                 match ptr w SOut s with
-                 | Some t => match hd_arg (ports w1 SIn u) with
-                             | Some z => pre_replace w1 SOut t (RObj s) (RObj z)
-                             | None => true
-                             end
-                 | None => false
-                 end
-               else pre_insert w1 SIn u (RObj s))
-          | _, _ => false
-          end
+      | RObj s => pre_insert_out w u s (resolve_port w pout) &&
+                  pre_insert_in w (fst (insert_out w u s (resolve_port w pout))) u s (resolve_port w pin)
       | _ => true
       end
   | OTakePlaceOf u v => pre_take_place_of w u v
@@ -642,15 +813,22 @@ Definition obj_ok (w : world) (x : obj) : bool := match x with S_ n => n <? nrea
 Definition arg_ok (w : world) (a : arg) : bool :=
   match a with AObj x => obj_ok w x | AAt _ u _ => u <? nunits w | _ => true end.
 Definition unit_ok (w : world) (u : nat) : bool := u <? nunits w.
+Definition port_ok (w : world) (p : port) : bool := match p with PArg a => arg_ok w a | _ => true end.
+Definition items_okb (w : world) (o : option (list ditem)) : bool :=
+  match o with
+  | None => true
+  | Some l => forallb (fun d => match d with DArg a => arg_ok w a | _ => true end) l
+  end.
 Definition wfb (w : world) (o : op) : bool :=
   match o with
   | OSet _ u _ a | OInsert _ u _ a | OAppend _ u a | ORemove _ u a => unit_ok w u && arg_ok w a
-  | OSetSlice _ u _ _ xs | OExtend _ u xs => unit_ok w u && forallb (arg_ok w) xs
+  | OSetSlice _ u _ _ xs | OExtend _ u xs | OSetSliceStep _ u _ _ _ xs => unit_ok w u && forallb (arg_ok w) xs
   | OReplace _ u a b => unit_ok w u && arg_ok w a && arg_ok w b
-  | OPop _ u _ | OClear _ u | OEmpty _ u | OUnitDisconnect u _ => unit_ok w u
+  | OPop _ u _ | OClear _ u | OEmpty _ u => unit_ok w u
+  | OUnitDisconnect u _ pi po => unit_ok w u && items_okb w pi && items_okb w po
   | ODisc _ a | ODiscBoth a => arg_ok w a
   | OPipeUU u v | OTakePlaceOf u v => unit_ok w u && unit_ok w v
-  | OUnitInsert u a => unit_ok w u && arg_ok w a
+  | OUnitInsert u a pin pout => unit_ok w u && arg_ok w a && port_ok w pin && port_ok w pout
   | OReplaceWith u v => unit_ok w u && match v with Some v => unit_ok w v | None => true end
   | OReconnect src _ a _ snk =>
       arg_ok w a && match src with Some t => unit_ok w t | None => true end
@@ -742,7 +920,7 @@ Definition check_hist (stp : world -> op -> outcome) (w : world) (ops : list op)
 (* operations whose precondition flag the harness computes exactly in every state *)
 Definition flag_exact (o : op) : bool :=
   match o with
-  | OUnitDisconnect _ _ | OUnitInsert _ _ | OReplaceWith _ None => false
+  | OUnitDisconnect _ _ _ _ | OUnitInsert _ _ _ _ | OReplaceWith _ None => false
   | _ => true
   end.
 (* every sequence of [d] operations over the alphabet [A] from world [w]: sum of the checksums *)
